@@ -19,6 +19,10 @@ SPECS = ["FuncsMC", "FuncsTrace"]
 PKGS = ["./cmd/functions"]
 
 TRACE_BATCH = 20000
+# classes of the error tokens 1..6 (ErrTokClass of spec/Funcs.tla; the driver checks its own copy
+# against the specification in the bind vector)
+ERR_TOK_CLASS = ["plain", "plain", "wraps_call_shape_error", "call_error_not_reported", "call_error_reported",
+                 "typed_nil"]
 
 
 # ---------------------------------------------------------------------------- helpers
@@ -97,7 +101,14 @@ def trace_signature(line, exp):
         if div == "panic":
             sig["frame"] = line.get("frame", "")
         return sig
-    sig = dict(op="call", cell=exp["verdict"], expect=exp_class(exp), observed=obs_class(line["obs"]))
+    obs = line["obs"]
+    sig = dict(op="call", cell=exp["verdict"], expect=exp_class(exp), observed=obs_class(obs))
+    if exp["kind"] == "error" and exp["reported"]:
+        if obs["kind"] == "error" and obs["reported"] and exp["tok"] not in obs.get("srctoks", []):
+            sig["observed"] = "error/reported/other_source"
+        res = line.get("results") or []
+        sig["handler_error"] = (ERR_TOK_CLASS[exp["tok"] - 1]
+                                if res and res[-1] == "error" and 1 <= exp["tok"] <= len(ERR_TOK_CLASS) else "other_type")
     if line["obs"]["kind"] == "panic":
         sig["frame"] = line["obs"].get("frame", "")
     return sig
@@ -216,7 +227,9 @@ def run(ctx):
     thorough = ctx.tier == "thorough"
     ctx.rule = ("every state of FuncsMC is one vector: a cell (handler signature x declaration; static and "
                 "dynamic constructor) or a cell plus one call (argument lists of every length 0..arity+1, three "
-                "token rotations + two all-non-zero lists, every combination of result tokens, echo of every "
+                "token rotations + two all-non-zero lists, every combination of result tokens - for the error slot: nil, "
+                "plain errors, an error wrapping a not-function-reported *FunctionCallError, such a *FunctionCallError "
+                "itself, a function-reported one, a typed nil -, echo of every "
                 "type-compatible argument, handler panic, a foreign-typed value at every non-interface position); "
                 "distinct = distinct (cell, call); non-trivial = all but the empty cell func() / no declaration; "
                 "plus seeded random functions beyond the matrix validated by FuncsTrace")
@@ -275,6 +288,8 @@ def run(ctx):
         "a nil interface argument and a foreign-typed argument are not 'of the declared types': the check only "
         "demands that they are not presented as a function-reported error (error or panic both pass); a "
         "panicking handler is open as well",
+        "a handler error is 'reported faithfully' when the *FunctionCallError is marked function-reported and its "
+        "SourceError is (errors.Is) the very value the handler returned, or the returned error is that value itself",
         "values are compared with reflect.DeepEqual against the value the synthesised handler really returned "
         "(and against the token the specification predicts)",
         "variadic and non-function handlers are outside the property's matrix: run for coverage, surprises "
